@@ -119,11 +119,35 @@ InComment(lines) == Starts(lines, 1, "code", <<>>)
 RECURSIVE DropLead(_)
 DropLead(line) == IF line # <<>> /\ line[1] \in {32, 9} THEN DropLead(Tail(line)) ELSE line
 
+(* A quoted string is compared by its content and by being quoted, not by WHICH quote character the       *)
+(* printer chose: "\"" and '"' are the same string (the first output keeps the author's quotes inside       *)
+(* url(..), the re-read output prefers the quote that needs no escape).  QM marks a string delimiter; an    *)
+(* escaped quote inside a string becomes the bare quote; every other escape and all text outside strings   *)
+(* (comments included) stays as it is.                                                                      *)
+QM == -1
+RECURSIVE NormLine(_, _, _, _, _)
+NormLine(line, j, st, q, acc) ==
+  IF j > Len(line) THEN acc
+  ELSE LET c == line[j] IN
+    IF st = "cmt" THEN (IF c = 42 /\ j < Len(line) /\ line[j + 1] = 47 THEN NormLine(line, j + 2, "code", 0, acc \o <<42, 47>>)
+                        ELSE NormLine(line, j + 1, "cmt", 0, Append(acc, c)))
+    ELSE IF q # 0 THEN
+         IF c = 92 /\ j < Len(line)
+            THEN (IF line[j + 1] \in {34, 39} THEN NormLine(line, j + 2, st, q, Append(acc, line[j + 1]))
+                  ELSE NormLine(line, j + 2, st, q, acc \o <<92, line[j + 1]>>))
+         ELSE IF c = q THEN NormLine(line, j + 1, st, 0, Append(acc, QM))
+         ELSE NormLine(line, j + 1, st, q, Append(acc, c))
+    ELSE IF c = 92 THEN NormLine(line, j + 2, st, 0, acc \o (IF j < Len(line) THEN <<92, line[j + 1]>> ELSE <<92>>))
+    ELSE IF c \in {34, 39} THEN NormLine(line, j + 1, st, c, Append(acc, QM))
+    ELSE IF c = 47 /\ j < Len(line) /\ line[j + 1] = 42 THEN NormLine(line, j + 2, "cmt", 0, acc \o <<47, 42>>)
+    ELSE NormLine(line, j + 1, st, 0, Append(acc, c))
+
 (* the compared form of an output; Dev: see the deviations below *)
 Compared(lines, Dev) ==
   LET inc == InComment(lines)
       idx == SelectSeq([i \in 1..Len(lines) |-> i], LAMBDA i : inc[i] = 1 \/ ~IsBlank(lines[i]))
-  IN [k \in 1..Len(idx) |-> IF inc[idx[k]] = 1 /\ "comment_reindent_grows" \in Dev THEN DropLead(lines[idx[k]]) ELSE lines[idx[k]]]
+      nl(i) == NormLine(lines[i], 1, IF inc[i] = 1 THEN "cmt" ELSE "code", 0, <<>>)
+  IN [k \in 1..Len(idx) |-> IF inc[idx[k]] = 1 /\ "comment_reindent_grows" \in Dev THEN DropLead(nl(idx[k])) ELSE nl(idx[k])]
 SameLinesD(l1, l2, Dev) == Compared(l1, Dev) = Compared(l2, Dev)
 SameLines(l1, l2) == SameLinesD(l1, l2, {})
 
